@@ -24,8 +24,11 @@ def place_demo(wt, demo_path):
         target = os.path.join(wt, m2.group(1))
         body = open(target).read()
         idx = body.rstrip().rfind("}")
-        # strip an outer `mod ... { }` wrapper? keep as is: nested modules are fine inside mod tests
-        new = body[:idx] + "\n" + src + "\n}\n"
+        self_contained = any(l.startswith("mod ") or l.startswith("#[cfg(test)]") for l in src.splitlines())
+        if self_contained:
+            new = body + "\n" + src + "\n"
+        else:
+            new = body[:idx] + "\n" + src + "\n}\n"
         open(target, "w").write(new)
         return ("src", target, names)
     elif m:
@@ -37,6 +40,8 @@ def place_demo(wt, demo_path):
 
 def run_demo(wt, kind, target, names):
     env = {"CARGO_TARGET_DIR": os.path.join(wt, "target"), "CARGO_NET_OFFLINE": "true"}
+    if "mini_moka_verif" in open(target).read() and "cfg mini_moka_verif" in open(target).read():
+        env["RUSTFLAGS"] = "--cfg mini_moka_verif"
     if kind == "src":
         flt = " ".join(names[:1]) if names else ""
         # run every test fn of the demo
@@ -45,8 +50,9 @@ def run_demo(wt, kind, target, names):
             rc, out = sh(f"cargo test --offline --lib {n} -- --test-threads 1", cwd=wt, env=env)
             out_all += out[-1500:]
             ran = re.search(r"test result: \w+\. (\d+) passed; (\d+) failed", out)
+            if ran and int(ran.group(1)) + int(ran.group(2)) == 0:
+                continue  # ignored / filtered out: says nothing
             if rc != 0 or not ran or int(ran.group(2)) > 0: ok = False
-            if ran and int(ran.group(1)) + int(ran.group(2)) == 0: ok = None if ok else ok
         return ok, out_all
     else:
         name = os.path.splitext(os.path.basename(target))[0]
